@@ -1056,35 +1056,53 @@ def check_roundtrip(fmt, frames, as_gen):
     return None
 
 
+def frame_extents(fmt, lines, starts):
+    """per frame (begin, end): a cut k is inside the frame iff begin < k < end (begin = index after which the
+    reader has started the frame, end = index after the last line carrying data of the frame)."""
+    out = []
+    bounds = starts[1:] + [len(lines)]
+    for s0, e0 in zip(starts, bounds):
+        if fmt in ("xyz", "extxyz"):
+            out.append((s0, s0 + int(lines[s0]) + 2))
+        elif fmt == "gromacs":
+            out.append((s0, s0 + int(lines[s0 + 1]) + 3))
+        elif fmt == "sdf":
+            out.append((s0, next(i for i in range(s0, e0) if lines[i] == "$$$$\n") + 1))
+        elif fmt == "pdb":
+            ia = next(i for i in range(s0, e0) if lines[i].startswith(("ATOM", "HETATM")))
+            ie = next((i for i in range(ia, e0) if lines[i].startswith("END")), None)
+            out.append((ia, ie + 1 if ie is not None else len(lines) + 1))
+        elif fmt == "mol2":
+            im = next(i for i in range(s0, e0) if lines[i].split()[:1] == ["@<TRIPOS>MOLECULE"])
+            w = lines[im + 2].split()
+            na, nb = int(w[0]), int(w[1])
+            ia = next(i for i in range(im, e0) if lines[i].split()[:1] == ["@<TRIPOS>ATOM"])
+            end = ia + 1 + na
+            ib = next((i for i in range(ia, e0) if lines[i].split()[:1] == ["@<TRIPOS>BOND"]), None)
+            if ib is not None:
+                end = ib + 1 + nb
+            out.append((im, end))
+    return out
+
+
 def check_cuts_and_corruptions(ctx, fmt, lines, nframes, label, starts=None, cut_points=None):
-    """truncation at line boundaries: never a silent short sequence, never a partial frame without warning.
-    `starts` = index of the first line of each frame (complete file)."""
+    """truncation at line boundaries: never a silent short sequence, never a partial frame without warning."""
     fails = []
     starts = starts if starts is not None else frame_spans(fmt, lines)
-    ends = starts[1:] + [len(lines)]
     full, ffinal = impl_load_many(fmt, lines)
     if ffinal != "done" or len(full) != nframes:
         return [(f"load_many:{fmt}:complete-file", f"{label}: complete file gives {len(full)} frames / {ffinal}",
-                 {"fmt": fmt, "lines": lines, "expect": nframes})]
+                 {"fmt": fmt, "lines": lines, "kind": "file"})]
+    ext = frame_extents(fmt, lines, starts)
     full_snaps = [_snap(x[4]) for x in full]
     for k in (cut_points if cut_points is not None else range(len(lines) + 1)):
         got, final = impl_load_many(fmt, lines[:k])
-        ncomplete = sum(1 for e in ends if e <= k)
-        inside = any(s < k < e for s, e in zip(starts, ends))
-        # trailing lines after the last frame's end marker that carry no frame (blank lines, END/MASTER records)
-        if fmt == "pdb":
-            # a PDB frame ends at the first END* record after an atom; records after it belong to no frame
-            inside = inside and _pdb_has_atom(lines[max([s for s in starts if s < k], default=0):k]) \
-                and not _pdb_closed(lines[max([s for s in starts if s < k], default=0):k])
-            ncomplete = _pdb_complete(lines[:k])
-        if fmt == "mol2" and inside:
-            s0 = max(s for s in starts if s < k)
-            inside = any(l.startswith("@<TRIPOS>MOLECULE") for l in lines[s0:k]) and \
-                not _mol2_complete(lines[s0:ends[starts.index(s0)]], k - s0)
-        if fmt in ("xyz", "extxyz", "sdf", "gromacs") and inside:
-            s0 = max(s for s in starts if s < k)
-            if all(l.strip() == "" for l in lines[s0:k]):
-                inside = False
+        ncomplete = sum(1 for _, e in ext if e <= k)
+        inside = any(b < k < e for b, e in ext)
+        if inside and fmt in ("xyz", "extxyz", "sdf", "gromacs"):
+            b0 = max(b for b, e in ext if b < k < e)
+            if all(l.strip() == "" for l in lines[b0:k]):
+                inside = False  # only blank lines of the next frame are left: a clean end
         cls = "cut-inside" if inside else "cut-boundary"
         ctx.count(f"search-cut:{fmt}", [label, k], f"{cls}/{final[:2]}", nontrivial=True)
         what = None
@@ -1094,53 +1112,25 @@ def check_cuts_and_corruptions(ctx, fmt, lines, nframes, label, starts=None, cut
             what = ("frame-dropped", f"{ncomplete} complete frames in the file, {len(got)} yielded, outcome {final}")
         elif any(_snap(g[4]) != full_snaps[i] for i, g in enumerate(got[:ncomplete])):
             what = ("frame-changed", "a complete frame of a truncated file differs from the same frame of the whole file")
-        elif inside and final == "done":
-            # the cut frame: either not yielded and no error (silent end), or yielded partial without warning
-            if len(got) == ncomplete:
+        elif inside:
+            if final == "done" and len(got) == ncomplete:
                 what = ("incomplete-frame-silent-end", f"file cut inside frame {ncomplete}: the sequence ends after "
                         f"{len(got)} frames without LoadError")
-            elif not got[-1][3]:
+            elif len(got) > ncomplete and not got[-1][3]:
                 what = ("partial-frame-no-warning", f"file cut inside frame {ncomplete}: a partial frame is yielded "
                         "without warning or error")
-        elif not inside and final != "done" and k not in (0,):
-            what = ("complete-file-rejected", f"a file of {ncomplete} complete frames ends with {final}")
-        elif not inside and len(got) != ncomplete:
-            what = ("extra-frame", f"{ncomplete} complete frames, {len(got)} yielded")
+        else:
+            none_yet = fmt in ("pdb", "mol2") and ncomplete == 0
+            if len(got) != ncomplete:
+                what = ("extra-frame", f"{ncomplete} complete frames, {len(got)} yielded")
+            elif final != "done" and not none_yet:
+                what = ("complete-file-rejected", f"a file of {ncomplete} complete frames ends with {final}")
+            elif final == "done" and none_yet:
+                what = ("no-molecule-accepted", "a file without any molecule yields no frame and no error")
         if what:
             fails.append((f"load_many:{fmt}:{what[0]}", f"{label} cut after line {k}: {what[1]}",
                           {"fmt": fmt, "lines": lines[:k], "kind": "cut"}))
     return fails
-
-
-def _pdb_has_atom(ls):
-    return any(l.startswith(("ATOM", "HETATM")) for l in ls)
-
-
-def _pdb_closed(ls):
-    found = False
-    for l in ls:
-        if l.startswith(("ATOM", "HETATM")):
-            found = True
-        if l.startswith("END") and found:
-            return True
-    return False
-
-
-def _pdb_complete(ls):
-    n, found = 0, False
-    for l in ls:
-        if l.startswith(("ATOM", "HETATM")):
-            found = True
-        if l.startswith("END") and found:
-            n += 1
-            found = False
-    return n
-
-
-def _mol2_complete(frame_lines, k):
-    """is the prefix of k lines of this frame already the whole frame content (only trailing non-record lines cut)?"""
-    rest = frame_lines[k:]
-    return all(len(l) <= 1 or l.startswith("#") for l in rest)
 
 
 def search(ctx):
